@@ -8,6 +8,8 @@ of the row payload `α`, so they are sliced with the rows by construction), an a
 rows, and arbitrary numbers `ncf`, `nsf` of control / sensitive columns.
 -/
 import FairModel.Lemmas.Frame
+import FairModel.Lemmas.FrameSrc
+import FairModel.Lemmas.FrameMulti
 
 namespace C01
 open Frame
@@ -306,6 +308,186 @@ theorem stratum_partition (nanv : β) (ncf nsf : Nat) (hn : 0 < ncf + nsf) (f : 
     have : r.cf = k.take ncf := by
       rw [← hr'.2]; simp [Row.key, ← h1]
     simp [this, hk]
+
+/-! ### Tie to the source text (`Generated/FrameSrc.lean`)
+
+`harness/lifters/frame.py` translates, on every run, the bodies of `DisaggregatedResult._apply_functions`
+and `DisaggregatedResult.create` (which columns are grouped on, in which order: control features first,
+then sensitive features; when the result is re-indexed and to what; `overall` per control stratum),
+`apply_to_dataframe`, `AnnotatedMetricFunction.__call__` and the loop of
+`MetricFrame._construct_annotated_metric_function` into Lean over the pandas primitives of
+`Model/FramePrims.lean`.  `src_*_eq_model` identify the translation with `Frame.byGroup` / `overall`
+for the column names `MetricFrame.__init__` passes, and the clauses of the property are restated for
+the translated functions. -/
+
+section Source
+open FramePrims FrameSrc
+
+theorem src_byGroup_eq_model (nanv : β) (ncf nsf : Nat) (f : List α → β) (rows : List (Row α))
+    (hwf : WF ncf nsf rows) :
+    create_by_group nanv rows f (sfNames nsf) (cfNames ncf) = byGroup nanv ncf nsf f rows :=
+  create_by_group_eq_model nanv ncf nsf f rows hwf
+
+theorem src_overall_eq_model (nanv : β) (ncf nsf : Nat) (f : List α → β) (rows : List (Row α))
+    (hwf : WF ncf nsf rows) :
+    create_overall nanv rows f (sfNames nsf) (cfNames ncf) = overall nanv ncf f rows :=
+  create_overall_eq_model nanv ncf nsf f rows hwf
+
+/-- translated `create(...).by_group`: every entry is the metric on exactly the rows of that tuple -/
+theorem src_byGroup_cell (nanv : β) (ncf nsf : Nat) (hn : 0 < ncf + nsf) (f : List α → β)
+    (rows : List (Row α)) (hwf : WF ncf nsf rows) (k : Key) (v : β)
+    (h : (k, v) ∈ create_by_group nanv rows f (sfNames nsf) (cfNames ncf)) :
+    v = if rows.filter (fun r => r.cf ++ r.sf == k) = [] then nanv
+        else f ((rows.filter (fun r => r.cf ++ r.sf == k)).map (·.dat)) := by
+  rw [src_byGroup_eq_model nanv ncf nsf f rows hwf] at h
+  exact byGroup_cell nanv ncf nsf hn f rows k v h
+
+/-- translated `create(...).by_group`: the index is the Cartesian product of the observed values,
+    control columns first -/
+theorem src_byGroup_index (nanv : β) (ncf nsf : Nat) (hn : 0 < ncf + nsf) (f : List α → β)
+    (rows : List (Row α)) (hwf : WF ncf nsf rows) (k : Key) :
+    k ∈ keys (create_by_group nanv rows f (sfNames nsf) (cfNames ncf)) ↔
+      k.length = ncf + nsf ∧ ∀ j, j < ncf + nsf → ∃ r ∈ rows, (r.cf ++ r.sf).getD j "" = k.getD j "" := by
+  rw [src_byGroup_eq_model nanv ncf nsf f rows hwf]
+  exact byGroup_index nanv ncf nsf hn f rows hwf k
+
+theorem src_byGroup_index_nodup_sorted (nanv : β) (ncf nsf : Nat) (f : List α → β)
+    (rows : List (Row α)) (hwf : WF ncf nsf rows) :
+    (keys (create_by_group nanv rows f (sfNames nsf) (cfNames ncf))).Nodup ∧
+    (keys (create_by_group nanv rows f (sfNames nsf) (cfNames ncf))).Pairwise (· < ·) := by
+  rw [src_byGroup_eq_model nanv ncf nsf f rows hwf]
+  exact ⟨byGroup_index_nodup nanv ncf nsf f rows, byGroup_index_sorted nanv ncf nsf f rows⟩
+
+/-- translated `create(...).by_group`: an observed-values combination without rows is NaN, not dropped -/
+theorem src_byGroup_empty (nanv : β) (ncf nsf : Nat) (hn : 0 < ncf + nsf) (f : List α → β)
+    (rows : List (Row α)) (hwf : WF ncf nsf rows) (k : Key) (hlen : k.length = ncf + nsf)
+    (hobs : ∀ j, j < ncf + nsf → ∃ r ∈ rows, (r.cf ++ r.sf).getD j "" = k.getD j "")
+    (hempty : ∀ r ∈ rows, r.cf ++ r.sf ≠ k) :
+    (k, nanv) ∈ create_by_group nanv rows f (sfNames nsf) (cfNames ncf) := by
+  rw [src_byGroup_eq_model nanv ncf nsf f rows hwf]
+  exact byGroup_empty nanv ncf nsf hn f rows hwf k hlen hobs hempty
+
+/-- translated `create(...).overall` without control features: the metric on all rows -/
+theorem src_overall_eq (nanv : β) (nsf : Nat) (f : List α → β) (rows : List (Row α)) :
+    create_overall nanv rows f (sfNames nsf) (cfNames 0) = [([], f (rows.map (·.dat)))] := rfl
+
+/-- translated `create(...).overall` with control features: per control combination -/
+theorem src_overall_control_cell (nanv : β) (ncf nsf : Nat) (hn : 0 < ncf) (f : List α → β)
+    (rows : List (Row α)) (hwf : WF ncf nsf rows) (c : Key) (v : β)
+    (h : (c, v) ∈ create_overall nanv rows f (sfNames nsf) (cfNames ncf)) :
+    v = if rows.filter (fun r => r.cf == c) = [] then nanv
+        else f ((rows.filter (fun r => r.cf == c)).map (·.dat)) := by
+  rw [src_overall_eq_model nanv ncf nsf f rows hwf] at h
+  exact overall_control_cell nanv ncf hn f rows c v h
+
+theorem src_byGroup_partition (nanv : β) (ncf nsf : Nat) (hn : 0 < ncf + nsf) (f : List α → β)
+    (rows : List (Row α)) (hwf : WF ncf nsf rows) :
+    ((keys (create_by_group nanv rows f (sfNames nsf) (cfNames ncf))).flatMap
+      (fun k => rowsOf Row.key k rows)).Perm rows := by
+  rw [src_byGroup_eq_model nanv ncf nsf f rows hwf]
+  exact byGroup_partition nanv ncf nsf hn f rows hwf
+
+end Source
+
+/-! ### Multi-metric frames: no cross-talk between the metrics of a dict
+
+`Model/FrameMulti.lean`: `metrics=` a dict of any number of callables, each with its own entry of
+`sample_params`; all sample parameters are stored in ONE table `all_data` under the column names
+`f"{name}_{param_name}"` (translated from `_construct_annotated_metric_function`).  -/
+
+section Multi
+open FramePrims FrameMulti
+
+variable {γ : Type}
+
+/-- Every metric of a dict is called, on every slice, with y_true / y_pred of the slice and EXACTLY
+    ITS OWN non-None sample parameters, sliced the same way — whatever the other metrics and their
+    parameters are — provided the generated column names are pairwise distinct and differ from
+    `y_true` / `y_pred` (`ColsOK`).  Without that hypothesis the statement is FALSE of the code
+    (`multi_crosstalk_witness`). -/
+theorem multi_metric_own_params (yt yp : List Rat) (ms : List (MetricSpec γ))
+    (hok : ColsOK (baseData yt yp) ms) (m : MetricSpec γ) (hm : m ∈ ms) (idx : List Nat) :
+    metricFn (constructAll (baseData yt yp) ms).1 (annotatedOf m) idx =
+      m.func [idx.map (fun j => yt.getD j 0), idx.map (fun j => yp.getD j 0)] (ownKwargs m idx) :=
+  metricFn_own yt yp ms hok m hm idx
+
+/-- each column of a multi-metric `by_group` equals the single-metric frame of that function with
+    exactly its own sample parameters; any number of metrics, features, rows -/
+theorem multi_column_eq_single (nanv : γ) (ncf nsf : Nat) (yt yp : List Rat) (ms : List (MetricSpec γ))
+    (rows : List (Row Nat)) (hwf : WF ncf nsf rows) (hnames : (ms.map (·.name)).Nodup)
+    (hok : ColsOK (baseData yt yp) ms) (m : MetricSpec γ) (hm : m ∈ ms) :
+    FrameMulti.column m.name (byGroupFrame nanv ncf nsf (baseData yt yp) ms rows) =
+      (singleByGroup nanv ncf nsf (baseData yt yp) m rows).map (fun p => (p.1, some p.2)) := by
+  unfold byGroupFrame singleByGroup FrameMulti.column
+  dsimp only
+  rw [FrameSrc.create_by_group_eq_model _ _ _ _ _ hwf, FrameSrc.create_by_group_eq_model _ _ _ _ _ hwf]
+  unfold byGroup
+  refine (applyFunctions_map (fun row => List.lookup m.name row) _ _ _ _ _).trans ?_
+  refine Eq.trans ?_ (applyFunctions_map some _ _ _ _ _).symm
+  have hD : (constructAll (baseData yt yp) ms).2 = ms.map annotatedOf := by rw [constructAll_eq]
+  have hs : construct (baseData yt yp) m = ((constructAll (baseData yt yp) [m]).1, annotatedOf m) := by
+    simp [constructAll_eq, construct_eq]
+  rw [hD, hs, lookup_nanRow nanv ms m hm]
+  congr 1
+  funext idx
+  rw [lookup_fnDict _ ms hnames m hm idx, metricFn_own yt yp ms hok m hm idx,
+    metricFn_own yt yp [m] (colsOK_single _ ms hok m hm) m (by simp) idx]
+
+/-- the same for `overall` (per control stratum when control features exist) -/
+theorem multi_overall_column_eq_single (nanv : γ) (ncf nsf : Nat) (yt yp : List Rat)
+    (ms : List (MetricSpec γ)) (rows : List (Row Nat)) (hwf : WF ncf nsf rows)
+    (hnames : (ms.map (·.name)).Nodup) (hok : ColsOK (baseData yt yp) ms) (m : MetricSpec γ) (hm : m ∈ ms) :
+    FrameMulti.column m.name (overallFrame nanv ncf nsf (baseData yt yp) ms rows) =
+      (singleOverall nanv ncf nsf (baseData yt yp) m rows).map (fun p => (p.1, some p.2)) := by
+  unfold overallFrame singleOverall FrameMulti.column
+  dsimp only
+  rw [FrameSrc.create_overall_eq_model _ _ _ _ _ hwf, FrameSrc.create_overall_eq_model _ _ _ _ _ hwf]
+  unfold overall
+  refine (applyFunctions_map (fun row => List.lookup m.name row) _ _ _ _ _).trans ?_
+  refine Eq.trans ?_ (applyFunctions_map some _ _ _ _ _).symm
+  have hD : (constructAll (baseData yt yp) ms).2 = ms.map annotatedOf := by rw [constructAll_eq]
+  have hs : construct (baseData yt yp) m = ((constructAll (baseData yt yp) [m]).1, annotatedOf m) := by
+    simp [constructAll_eq, construct_eq]
+  rw [hD, hs, lookup_nanRow nanv ms m hm]
+  congr 1
+  funext idx
+  rw [lookup_fnDict _ ms hnames m hm idx, metricFn_own yt yp ms hok m hm idx,
+    metricFn_own yt yp [m] (colsOK_single _ ms hok m hm) m (by simp) idx]
+
+/-- and the single-metric frame is the C01 model frame of "the metric with its own parameters":
+    every clause of C01 applies to every column of a multi-metric frame -/
+theorem single_eq_model (nanv : γ) (ncf nsf : Nat) (yt yp : List Rat) (m : MetricSpec γ)
+    (rows : List (Row Nat)) (hwf : WF ncf nsf rows) (hok : ColsOK (baseData yt yp) [m]) :
+    singleByGroup nanv ncf nsf (baseData yt yp) m rows =
+      byGroup nanv ncf nsf
+        (fun idx => m.func [idx.map (fun j => yt.getD j 0), idx.map (fun j => yp.getD j 0)] (ownKwargs m idx))
+        rows := by
+  unfold singleByGroup
+  dsimp only
+  rw [FrameSrc.create_by_group_eq_model _ _ _ _ _ hwf]
+  have hs : construct (baseData yt yp) m = ((constructAll (baseData yt yp) [m]).1, annotatedOf m) := by
+    simp [constructAll_eq, construct_eq]
+  rw [hs]
+  congr 1
+  funext idx
+  exact metricFn_own yt yp [m] hok m (by simp) idx
+
+/-- the metric used in the witness: the sum of its (single) keyword array -/
+def sumKw : List (List Rat) → List (String × List Rat) → Rat := fun _ kw => ((kw.map (·.2)).flatten).sum
+
+/-- WITNESS (finding F17): metrics named "a" and "a_b" with parameters "b_c" and "c" share the
+    column "a_b_c"; metric "a" then receives the OTHER metric's parameter (30 instead of 3). -/
+def xtalk : List (MetricSpec Rat) :=
+  [⟨"a", some "a", sumKw, [("b_c", some [1, 2, 4])]⟩, ⟨"a_b", some "a_b", sumKw, [("c", some [10, 20, 40])]⟩]
+
+theorem multi_crosstalk_witness :
+    metricFn (constructAll (baseData [0, 1, 1] [0, 1, 0]) xtalk).1 (annotatedOf (xtalk.getD 0 ⟨"", none, sumKw, []⟩)) [0, 1] = 30
+    ∧ sumKw [] (ownKwargs (xtalk.getD 0 ⟨"", none, sumKw, []⟩) [0, 1]) = 3
+    ∧ ¬ ColsOK (baseData [0, 1, 1] [0, 1, 0]) xtalk := by
+  refine ⟨by decide +kernel, by decide +kernel, ?_⟩
+  unfold ColsOK; decide +kernel
+
+end Multi
 
 /-! ### Non-vacuity: a 6-row frame with 2 x 2 sensitive levels and one empty intersection -/
 
